@@ -23,9 +23,11 @@ Proof.
   - destruct (find_task (limbo s) t); [|discriminate]. kill_if H. injection H as <-. now left.
   - destruct (lookup s t) as [[p inp]|]; [|discriminate]. destruct (find_inst (c_insts c) t); [|discriminate].
     kill_if H. injection H as <-. left. apply store_done.
-  - destruct (lookup s t) as [[p inp]|]; [|discriminate]. kill_if H.
-    injection H as <-. right. exists t, o. split; reflexivity.
-  - destruct (lookup s t) as [[p inp]|]; [|discriminate]. destruct (find_inst (c_insts c) t); [|discriminate].
+  - destruct (lookup s t) as [[p inp]|].
+    + kill_if H. injection H as <-. right. exists t, o. split; reflexivity.
+    + injection H as <-. right. exists t, o. split; reflexivity.
+  - destruct (lookup s t) as [[p inp]|]; [|injection H as <-; now left].
+    destruct (find_inst (c_insts c) t); [|discriminate].
     kill_if H. injection H as <-. left. rewrite store_done.
     destruct (h && negb (p_held p)); [apply (add_hold_fields s t)|reflexivity].
   - injection H as <-. now left.
@@ -43,6 +45,15 @@ Proof.
   - injection H as <-. now left.
   - injection H as <-. now left.
   - injection H as <-. now left.
+  - injection H as <-. now left.
+  - destruct (find_task (saved s) (v_id v)); [|discriminate]. kill_if H. injection H as <-. now left.
+  - destruct (saved s); [injection H as <-; now left|discriminate].
+  - injection H as <-. now left.
+  - injection H as <-. now left.
+  - injection H as <-. now left.
+  - destruct (stop_task s); [|discriminate]. kill_if H. injection H as <-. now left.
+  - kill_if H. destruct m; kill_if H; injection H as <-; now left.
+  - kill_if H. injection H as <-. now left.
   - kill_if H. injection H as <-. now left.
   - kill_if H. injection H as <-. now left.
 Qed.
@@ -142,6 +153,7 @@ Proof.
   destruct (negb (status_eqb _ _)); [discriminate|].
   destruct (mem (pair_eqb tid_eqb Nat.eqb) (t, sn) (subs s)) eqn:Em; [discriminate|].
   destruct (negb (Nat.ltb _ (i_tries i)) && negb (p_manual p)) eqn:Eb; [discriminate|].
+  destruct (Z.ltb (stop_point s) (fst t) && negb (p_manual p)); [discriminate|].
   intros _. exists p, i. repeat split; auto.
   - apply andb_false_iff in Eb. destruct Eb as [Eb|Eb].
     + right. apply negb_false_iff, Nat.ltb_lt in Eb. exact Eb.
@@ -154,14 +166,15 @@ Qed.
 (* ------------------------------------------------------------------ *)
 Theorem runahead_release_within_limit c s t st h q s' p inp :
   step c s (EState t st h q false) = Ok s' ->
-  lookup s t = Some (p, inp) -> p_runahead p = true -> p_manual p = false ->
+  lookup s t = Some (p, inp) -> p_runahead p = true -> p_manual p = false -> is_final (p_status p) = false ->
   exists l, limit s = Some l /\ fst (p_id p) <= l.
 Proof.
-  cbn [step]. intros H El Hr Hm. rewrite El in H.
+  cbn [step]. intros H El Hr Hm Hf. rewrite El in H.
   destruct (find_inst (c_insts c) t); [|discriminate].
   destruct (_ && _) in H; [discriminate|]. destruct (_ && _) in H; [discriminate|].
-  destruct (negb false && p_runahead p && negb (within_limit s p) && negb (p_manual p)) eqn:E; [discriminate|].
-  rewrite Hr, Hm in E. cbn in E. rewrite andb_true_r in E. apply negb_false_iff in E.
+  destruct (negb false && p_runahead p && negb (within_limit s p) && negb (p_manual p) && negb (is_final (p_status p))) eqn:E;
+    [discriminate|].
+  rewrite Hr, Hm, Hf in E. cbn in E. rewrite !andb_true_r in E. apply negb_false_iff in E.
   unfold within_limit in E. destruct (limit s) as [l|]; [|discriminate].
   exists l. split; [reflexivity|]. now apply Z.leb_le.
 Qed.
@@ -457,4 +470,137 @@ Proof.
   - destruct hp as [x|], (hold_pt s) as [y|]; cbn in E1'; try discriminate; auto.
     apply Z.eqb_eq in E1'. now subst.
   - rewrite forallb_forall in E2. intros p Hp. apply eqb_prop. auto.
+Qed.
+
+(* ------------------------------------------------------------------ *)
+(* C19: stop + restart                                                  *)
+(* ------------------------------------------------------------------ *)
+Theorem restored_spec p :
+  p_id (restored p) = p_id p /\ p_held (restored p) = p_held p /\ p_flows (restored p) = p_flows p /\
+  p_sat (restored p) = p_sat p /\ p_outs (restored p) = p_outs p /\ p_manual (restored p) = p_manual p /\
+  (p_status p = Preparing -> p_status (restored p) = Waiting /\ p_sn (restored p) = Nat.pred (p_sn p)) /\
+  (p_status p <> Preparing -> p_status (restored p) = p_status p /\ p_sn (restored p) = p_sn p).
+Proof.
+  unfold restored. repeat split; cbn; destruct (p_status p); cbn; try reflexivity; try congruence.
+Qed.
+
+Theorem restart_keeps_persistent_state c s s' :
+  step c s ERestart = Ok s' ->
+  saved s' = map restored (pool s) /\ pool s' = [] /\
+  to_hold s' = to_hold s /\ hold_pt s' = hold_pt s /\ stop_point s' = stop_point s /\
+  stop_task s' = stop_task s /\ subs s' = subs s /\ done s' = done s /\ abs_done s' = abs_done s /\
+  hist s' = hist s.
+Proof. cbn [step]. intros [= <-]. cbn. repeat split. Qed.
+
+Theorem restore_matches_expected c s v s' :
+  step c s (ERestore v) = Ok s' ->
+  exists p, find_task (saved s) (v_id v) = Some p /\ view_matches p v = true /\
+            pool s' = pool s ++ [p] /\ saved s' = remove_task (saved s) (v_id v).
+Proof.
+  cbn [step]. destruct (find_task (saved s) (v_id v)) as [p|]; [|discriminate].
+  destruct (negb (view_matches p v)) eqn:E; [discriminate|].
+  destruct (existsb _ (pool s)); [discriminate|]. intros [= <-].
+  exists p. apply negb_false_iff in E. repeat split; auto.
+Qed.
+
+Lemma find_remove_task l t x p :
+  find_task l t = Some x -> In p l -> p = x \/ In p (remove_task l t).
+Proof.
+  induction l as [|y r IH]; cbn; [discriminate|].
+  destruct (tid_eqb (p_id y) t).
+  - intros [= <-] [<-|Hp]; auto.
+  - intros Hf [<-|Hp]; [right; now left|]. destruct (IH Hf Hp); [auto|right; now right].
+Qed.
+
+Lemma restores_account c vs : forall s s',
+  exec c s (map ERestore vs) = Some s' ->
+  (forall p, In p (pool s') -> In p (pool s) \/ In p (saved s)) /\
+  (forall p, In p (saved s) -> In p (saved s') \/ In p (pool s')) /\
+  (forall p, In p (pool s) -> In p (pool s')).
+Proof.
+  induction vs as [|v r IH]; intros s s'; cbn [map exec].
+  - intros [= <-]. auto.
+  - destruct (step c s (ERestore v)) as [s1|] eqn:E; [|discriminate]. intros H.
+    destruct (restore_matches_expected _ _ _ _ E) as [x [Hf [_ [Hp Hs]]]].
+    destruct (IH _ _ H) as [A [B C]]. rewrite Hp, Hs in *. repeat split.
+    + intros p Hp'. destruct (A p Hp') as [Hq|Hq].
+      * apply in_app_or in Hq. destruct Hq as [Hq|[<-|[]]]; [now left|right].
+        apply find_task_In in Hf. tauto.
+      * right. eapply In_remove_task; eauto.
+    + intros p Hp'. destruct (find_remove_task _ _ _ _ Hf Hp') as [->|Hq]; [|auto].
+      right. apply C. apply in_or_app. right. now left.
+    + intros p Hp'. apply C. apply in_or_app. now left.
+Qed.
+
+(* end to end: after a stop and restart the pool is exactly the old pool with every task
+   restored as [restored] says (preparing -> waiting under the same submit number; status,
+   held flag, flows, satisfied prerequisites, outputs and submit number otherwise unchanged) *)
+Theorem restart_roundtrip c s vs s' :
+  exec c s (ERestart :: map ERestore vs ++ [ERestartDone]) = Some s' ->
+  forall q, In q (pool s') <-> In q (map restored (pool s)).
+Proof.
+  cbn [exec]. destruct (step c s ERestart) as [s0|] eqn:E0; [|discriminate]. intros H.
+  apply exec_app in H. destruct H as [s1 [H1 H2]].
+  cbn [exec] in H2. destruct (step c s1 ERestartDone) as [s2|] eqn:E2; [|discriminate]. injection H2 as <-.
+  cbn [step] in E2. destruct (saved s1) eqn:Es; [|discriminate]. injection E2 as <-.
+  destruct (restart_keeps_persistent_state _ _ _ E0) as [Hs [Hp _]].
+  destruct (restores_account _ _ _ _ H1) as [A [B _]]. rewrite Hs, Hp in *.
+  intros q. split.
+  - intros Hq. destruct (A q Hq) as [[]|Hq']. exact Hq'.
+  - intros Hq. destruct (B q Hq) as [Hq'|Hq']; [rewrite Es in Hq'; destruct Hq'|exact Hq'].
+Qed.
+
+(* ------------------------------------------------------------------ *)
+(* C43: stop point, stop task, stop modes                               *)
+(* ------------------------------------------------------------------ *)
+Theorem no_submission_beyond_stop_point c s t sn s' :
+  step c s (ESubmit t sn) = Ok s' ->
+  exists p, find_task (pool s) t = Some p /\ (p_manual p = true \/ fst t <= stop_point s).
+Proof.
+  cbn [step]. destruct (find_task (pool s) t) as [p|]; [|discriminate].
+  destruct (find_inst (c_insts c) t); [|discriminate].
+  destruct (negb _); [discriminate|]. destruct (mem _ _ _); [discriminate|].
+  destruct (_ && _); [discriminate|].
+  destruct (Z.ltb (stop_point s) (fst t) && negb (p_manual p)) eqn:E; [discriminate|]. intros _.
+  exists p. split; [reflexivity|]. apply andb_false_iff in E. destruct E as [E|E].
+  - right. apply Z.ltb_ge in E. exact E.
+  - left. now apply negb_false_iff in E.
+Qed.
+
+Theorem clean_stop_waits_for_active_jobs c s s' :
+  step c s (EShutdownReq SClean) = Ok s' ->
+  forall p, In p (pool s) -> p_status p <> Submitted /\ p_status p <> Running.
+Proof.
+  cbn [step]. destruct (negb _); [discriminate|].
+  destruct (existsb (fun p => status_eqb (p_status p) Submitted || status_eqb (p_status p) Running) (pool s)) eqn:E;
+    [discriminate|]. intros _ p Hp.
+  assert (F : status_eqb (p_status p) Submitted || status_eqb (p_status p) Running = false).
+  { destruct (status_eqb (p_status p) Submitted || status_eqb (p_status p) Running) eqn:Ef; [|reflexivity].
+    assert (existsb (fun p => status_eqb (p_status p) Submitted || status_eqb (p_status p) Running) (pool s) = true)
+      by (apply existsb_exists; eauto). congruence. }
+  apply orb_false_iff in F. destruct F as [F1 F2].
+  split; intros Heq; rewrite Heq in *; discriminate.
+Qed.
+
+Theorem stop_point_forgotten_when_reached c s s' :
+  step c s EShutdownAuto = Ok s' -> stop_point s' = c_fcp c.
+Proof.
+  cbn [step]. repeat (destruct (existsb _ _); [discriminate|]). intros [= <-]. reflexivity.
+Qed.
+
+Theorem reported_stop_state_agrees c s sp st s' :
+  step c s (EParams sp st) = Ok s' -> sp = stop_point s /\ option_eqb tid_eqb st (stop_task s) = true.
+Proof.
+  cbn [step]. destruct (negb (Z.eqb sp (stop_point s))) eqn:E1; [discriminate|].
+  destruct (negb (option_eqb tid_eqb st (stop_task s))) eqn:E2; [discriminate|]. intros _.
+  apply negb_false_iff in E1, E2. apply Z.eqb_eq in E1. auto.
+Qed.
+
+Theorem stop_task_done_only_after_success c s s' :
+  step c s EStopTaskDone = Ok s' ->
+  exists t, stop_task s = Some t /\ In (t, o_succeeded) (done s) /\ stop_task s' = None.
+Proof.
+  cbn [step]. destruct (stop_task s) as [t|]; [|discriminate].
+  destruct (out_done s t o_succeeded) eqn:E; [|discriminate]. intros [= <-].
+  exists t. unfold out_done in E. apply mem_key_In in E. auto.
 Qed.
